@@ -466,6 +466,28 @@ func runC18(c *lib.Ctx) error {
 			}
 		}
 	}
+	// 3b''. exact coincidences: the total size of chunk k equals the end offset, inside chunk k+1, of a box that is
+	// no mdat (a moof of that size; styp + moof adding up to it; a trailing free box of that size). A callback is due
+	// at the end of every complete mdat box and nowhere else.
+	{
+		for a := 0; a <= 6; a++ {
+			for b := 0; b <= 3; b++ {
+				gid++
+				c1 := append(mkbox("moof", make([]byte, a)), mkbox("mdat", bytes.Repeat([]byte{1}, b+1))...)
+				L1 := len(c1)
+				c2 := append(mkbox("moof", bytes.Repeat([]byte{2}, L1-8)), mkbox("mdat", []byte{3, 3, 3})...) // moof ends at L1
+				L2 := len(c2)
+				c3 := append(append(mkbox("styp", []byte{4, 4}), mkbox("moof", bytes.Repeat([]byte{5}, L2-10-8))...), mkbox("mdat", []byte{6})...) // styp+moof end at L2
+				L3 := len(c3)
+				tail := mkbox("free", bytes.Repeat([]byte{7}, L3-8)) // a trailing box of the size of the last chunk
+				s := append(append(append(append([]byte{}, c1...), c2...), c3...), tail...)
+				for v := 0; v < 2; v++ {
+					add(c18in{Stream: s, Sched: randSched(len(s)), EOFData: v == 0, CbFail: -1, BufSize: bufSizes[(a+b+v)%len(bufSizes)]}, gid, nil)
+					c.Count("size-coincidence")
+				}
+			}
+		}
+	}
 	// 3c. large boxes and growing chunks: the buffer has to grow while it is much larger than its content
 	// (initial buffers between 1 KiB and the chunk size, a later chunk clearly larger than the first)
 	{
